@@ -5,12 +5,14 @@
 -/
 import Driver.StackFam
 import Driver.SelFam
+import Driver.GenFam
 open Driver
 
 def dispatch (stdin stdout : IO.FS.Stream) (line : String) : IO String := do
   match splitWs line with
   | "stack" :: args => pure (StackFam.handle args)
   | "sel" :: args => SelFam.handle stdin stdout args
+  | "gen" :: args => GenFam.handle stdin stdout args
   | "ping" :: _ => pure "pong"
   | _ => pure "bad-family"
 
